@@ -4,14 +4,9 @@ from props import _pipeline
 from pyvc.checklib import Check
 from pyvc.engine import Engine
 
-META = {
-    "level": "other",
-    "technique": "runtime evaluation of the effect contracts of DESIGN 3.0 at the choke points of the real code (Rule.fix, Rule.analyze, vhdlFile.update, rule_list.fix) over a finite universe of inputs: a bounded stand-in, not a proof",
-    "text": "BOUNDED ONLY for this property at present: " + _pipeline.WHAT["C08"] + ". The quantifier over all inputs and all ~960 rule bodies is not discharged deductively; see DESIGN.md for which kernel functions of the mechanism are under contract.",
-    "note": "Universe: repository fixtures x 3 configurations + 2 input variants + generated micro designs. Known findings of the unchanged tree are listed in known_findings.json by (rule, file, configuration, variant).",
-}
+META = _pipeline.meta('C08')
 
-DEDUCTIVE = ["vsg.rule_list.rule_list.fix"]
+DEDUCTIVE = ["vsg.rule_list.rule_list.fix", "vsg.apply_rules.apply_rules", "vsg.apply_rules.write_vhdl_file", "vsg.vhdlFile.vhdlFile.vhdlFile.get_lines", "vsg.vhdlFile.vhdlFile.vhdlFile.fix_blank_lines", "vsg.vhdlFile.vhdlFile.vhdlFile.fix_trailing_whitespace", "vsg.vhdlFile.vhdlFile.vhdlFile.update_token_map", "vsg.vhdlFile.utils.fix_blank_lines", "vsg.vhdlFile.utils.fix_trailing_whitespace"]
 
 
 def run():
